@@ -425,3 +425,31 @@ func genMultiFail(r *prng.R, i int) Scenario {
 	sc.Ops = ops
 	return sc
 }
+
+// C18: many restarts and in-place reloads, callback failures in between, then a clean stop; the
+// goroutine census must follow the model at every quiescent point and be zero at the end.
+func genChurn(r *prng.R, i int) Scenario {
+	n := 3 + r.Intn(2)
+	sc := Scenario{ID: fmt.Sprintf("churn-%d", i), Family: "churn", Pool: randPool(r, n, "S", 5)}
+	cur := randSubset(r, n, 1+r.Intn(n))
+	sc.Init = seqEntries(r, cur)
+	if i%7 == 6 {
+		sc.InitCb = prng.Pick(r, []string{"nil", "err"}) // failed boot followed by a clean stop
+	}
+	ops := []Op{{Op: "run"}, {Op: "wait"}}
+	steps := 8 + r.Intn(8)
+	for s := 0; s < steps; s++ {
+		if r.Chance(1, 12) {
+			ops = append(ops, Op{Op: "reload", Cb: prng.Pick(r, []string{"nil", "err"})}, Op{Op: "wait"})
+			break
+		}
+		cur, _ = nextCfg(r, n, cur)
+		ops = append(ops, Op{Op: "reload", Cb: "some", Cfg: seqEntries(r, cur)})
+		if r.Chance(2, 3) {
+			ops = append(ops, Op{Op: "wait"})
+		}
+	}
+	ops = append(ops, Op{Op: "wait"}, Op{Op: prng.Pick(r, []string{"stop", "cancel"})}, Op{Op: "wait"}, Op{Op: "end"})
+	sc.Ops = ops
+	return sc
+}
